@@ -52,8 +52,33 @@ func (p *Proc) execBlock(states []*State, list []ast.Stmt) flow {
 	var out flow
 	cur := states
 	for _, s := range list {
+		// forward goto: states that jumped to this label from earlier statements of the block
+		// (or from inside them) continue here
+		if ls, ok := s.(*ast.LabeledStmt); ok {
+			want := "goto:" + ls.Label.Name
+			var rest []jump
+			for _, j := range out.brk {
+				if j.label == want {
+					cur = append(cur, j.st)
+				} else {
+					rest = append(rest, j)
+				}
+			}
+			out.brk = rest
+			cur = p.merge(cur)
+		}
 		if len(cur) == 0 {
-			break
+			// later labels may still be the target of a pending goto
+			pending := false
+			for _, j := range out.brk {
+				if strings.HasPrefix(j.label, "goto:") {
+					pending = true
+				}
+			}
+			if !pending {
+				break
+			}
+			continue
 		}
 		var next []*State
 		for _, st := range cur {
@@ -134,6 +159,9 @@ func (p *Proc) exec(st *State, s ast.Stmt) flow {
 			return flow{cont: []jump{{label, st}}}
 		case token.FALLTHROUGH:
 			return flow{fall: []*State{st}}
+		case token.GOTO:
+			// forward jumps only: the state is picked up by the block that holds the label
+			return flow{brk: []jump{{"goto:" + label, st}}}
 		}
 		p.failf(x, "unsupported branch statement %s", x.Tok)
 	case *ast.DeferStmt:
